@@ -19,6 +19,14 @@ def correspondence(ctx):
         for s in all_strings(USER_ALPHA, maxlen - 1, 0):
             cases.append(f'composed|{prof}|prepare|{hexs(s)}')
             cases.append(f'composed|{prof}|enforce|{hexs(s)}')
+    # every code point at which any table-driven behaviour changes, alone and next to an ASCII letter
+    bc = boundary_cps(ctx, None if ctx.tier == 'quick' else 11)
+    corr.count('boundary_code_points', len(bc))
+    for prof_, op_ in (('um','prepare'),('um','enforce'),('up','enforce')):
+        for c_ in bc:
+            cases.append(f'prof|{prof_}|{op_}|f|b|{c_:04X}|')
+            cases.append(f'prof|{prof_}|{op_}|f|b|0061 {c_:04X}|')
+            cases.append(f'prof|{prof_}|{op_}|f|b|{c_:04X} 0041|')
     res = run_cases(cases, ctx.work)
     known = known_bidi(ctx)
 
